@@ -784,3 +784,136 @@ def gen_compare(L, K, rng):
         g.lines.append("cmpref %d %d %d %d" % (a, i, b, j))
         g.stat("cmpref")
     return g.finish(), g.stats
+
+
+# ---------------------------------------------------------------- references, iterators, algorithms (C11)
+def can_assign(L):
+    return all(p.kind != VARYING or p.ty != TTRK for p in L)
+
+
+def can_swap(L):
+    return all(p.kind != VARYING or p.ty not in (TTRK, TTRKC, TBYTE) for p in L)
+
+
+def gen_proxy(L, K, rng):
+    """one or two vectors whose elements all have the same field sizes; reference assignment
+    (copy from const / lvalue references, move from rvalue references, through iterators),
+    swap / iter_swap, writes through every access path, iterator arithmetic, rotate / reverse
+    / swap_ranges, interleaved with the ordinary operations"""
+    g = ScriptGen(L, K, rng, domain=3)
+    nf = nfixed(L)
+    fixed = [rng.choice([0, 1, 2, 3]) for _ in range(nf)]
+    vcounts = {k: rng.choice([0, 1, 2, 3]) for k, p in enumerate(L) if p.kind == VARYING}
+    per = sum(vcounts[k] * L[k].size for k in vcounts)
+
+    def tup():
+        t = g.rand_tuple(fixed, 0)
+        for k, c in vcounts.items():
+            t[k] = [g.rand_obj(L[k]) for _ in range(c)]
+            t[k - 1] = [le(c, L[k - 1].size)]
+        return t
+
+    nv = rng.choice([1, 2, 2])
+    for s in range(nv):
+        if rng.random() < 0.3:
+            g.lines.append("junk %d" % rng.choice([0, 85, 170, 255]))
+        n = rng.choice([2, 3, 4, 5, 6])
+        g.op_mkvec(s, cap=n + rng.choice([0, 1, 2]), budget=per * (n + 2) if has_varying(L) else 0, fixed=fixed, aid=rng.choice([1, 2]))
+        for _ in range(n):
+            t = tup()
+            v = g.slots[s]
+            if v.fits(t, True):
+                v.elems.append(t)
+                g.lines.append(g.emplace_line(s, t))
+    live = [s for s in range(nv) if g.slots[s].elems]
+    if not live:
+        return g.finish(), g.stats
+    ca, cs = can_assign(L), can_swap(L)
+    for _ in range(rng.randrange(6, 22)):
+        r = rng.random()
+        a, b = rng.choice(live), rng.choice(live)
+        na, nb = len(g.slots[a].elems), len(g.slots[b].elems)
+        if r < 0.22 and ca:
+            i, j = rng.randrange(na), rng.randrange(nb)
+            if a == b and rng.random() < 0.1:
+                j = i
+            form = rng.choice([0, 1, 2, 2, 3])
+            src = g.slots[b].elems[j]
+            g.slots[a].elems[i] = [[list(o) for o in f] for f in src]
+            if form == 2 and not (a == b and i == j):
+                g.slots[b].elems[j] = [[[238] * p.size for _ in f] if p.ty == TTRK else f for f, p in zip(src, L)]
+            g.lines.append("refassign %d %d %d %d %d" % (a, i, b, j, form))
+            g.stat("refassign-" + ["const", "lvalue", "move", "iterator"][form] + ("-self" if a == b and i == j else ""))
+        elif r < 0.40 and cs:
+            i, j = rng.randrange(na), rng.randrange(nb)
+            x, y = g.slots[a].elems[i], g.slots[b].elems[j]
+            g.slots[a].elems[i], g.slots[b].elems[j] = y, x
+            g.lines.append("refswap %d %d %d %d %d" % (a, i, b, j, rng.choice([0, 1])))
+            g.stat("refswap" + ("-self" if a == b and i == j else ""))
+        elif r < 0.58:
+            i = rng.randrange(na)
+            ks = [k for k, p in enumerate(L) if p.ty != TTRK and g.slots[a].elems[i][k] and
+                  not (p.kind == PLAIN and k + 1 < len(L) and L[k + 1].kind == VARYING)]
+            if not ks:
+                continue
+            k = rng.choice(ks)
+            o = rng.randrange(len(g.slots[a].elems[i][k]))
+            val = g.rand_obj(L[k])
+            g.slots[a].elems[i][k][o] = val
+            path = rng.randrange(6)
+            g.lines.append("write %d %d %d %d %d %s" % (a, i, k, o, path, " ".join(map(str, val))))
+            g.stat("write-path%d" % path)
+        elif r < 0.72:
+            g.lines.append("iter %d %d %d" % (a, rng.randrange(na + 1), rng.randrange(na + 1)))
+            g.stat("iter")
+        elif r < 0.90 and ca and cs:
+            kind = rng.choice([0, 0, 1, 2])
+            es = g.slots[a].elems
+            if kind == 0:
+                if na >= 2 and rng.random() < 0.85:
+                    lo = rng.randrange(na - 1)
+                    hi = rng.randrange(lo + 2, na + 1)
+                    mid = rng.randrange(lo + 1, hi)
+                else:
+                    lo = rng.randrange(na + 1)
+                    hi = rng.randrange(lo, na + 1)
+                    mid = rng.randrange(lo, hi + 1)
+                es[lo:hi] = es[mid:hi] + es[lo:mid]
+                g.lines.append("algo 0 %d %d %d %d %d" % (a, lo, mid, hi, a))
+                g.stat("rotate" + ("-trivial" if mid in (lo, hi) else ""))
+            elif kind == 1:
+                lo = rng.randrange(na + 1)
+                hi = rng.randrange(lo, na + 1)
+                es[lo:hi] = es[lo:hi][::-1]
+                g.lines.append("algo 1 %d %d %d %d %d" % (a, lo, lo, hi, a))
+                g.stat("reverse")
+            else:
+                lo = rng.randrange(na + 1)
+                hi = rng.randrange(lo, na + 1)
+                n = hi - lo
+                if a == b:
+                    if hi + n > na:
+                        continue
+                    c = rng.randrange(hi, na - n + 1)
+                else:
+                    if n > nb:
+                        continue
+                    c = rng.randrange(0, nb - n + 1)
+                x, y = es[lo:hi], g.slots[b].elems[c:c + n]
+                es[lo:hi] = y
+                g.slots[b].elems[c:c + n] = x
+                g.lines.append("algo 2 %d %d %d %d %d" % (a, lo, hi, c, b))
+                g.stat("swap_ranges" + ("-same-vector" if a == b else ""))
+        elif r < 0.95:
+            i = rng.randrange(na)
+            g.lines.append("cmpref %d %d %d %d" % (a, i, b, rng.randrange(nb)))
+            g.stat("cmpref")
+        else:
+            v = g.slots[a]
+            if len(v.elems) < v.cap:
+                t = tup()
+                if v.fits(t, True):
+                    v.elems.append(t)
+                    g.lines.append(g.emplace_line(a, t))
+                    g.stat("emplace")
+    return g.finish(), g.stats
